@@ -586,7 +586,7 @@ def blank_delimited_case(ctx, rng):
         ctx.violation("value-differs-from-data", {"got": repr(got)[:300], "expected": repr(want)[:300]}, case)
 
 
-TOK_KW = r"""(?P<SPACE>\s+)|(?P<COMMENT>\#.*)|(?P<WORD>[a-z]+)|"(?P<QSTR>[a-z ]*)"|(?P<ML>''')|(?P<AT>@)|(?P<LT><)|(?P<GT>>)|(?P<BO>\[)|(?P<BC>\])|(?P<CO>\{)|(?P<CC>\})
+TOK_KW = r"""(?P<SPACE>\s+)|(?P<COMMENT>\#.*)|(?P<W>[a-z]+)|"(?P<QSTR>[a-z ]*)"|(?P<ML>''')|(?P<AT>@)|(?P<LT><)|(?P<GT>>)|(?P<BO>\[)|(?P<BC>\])|(?P<CO>\{)|(?P<CC>\})
             |(?P<COMMA>,)|(?P<COLON>:)"""
 _KW_PARSER = []
 
@@ -598,7 +598,8 @@ def keyword_case(ctx, rng):
         _KW_PARSER.append(llparser.LLParser(
             # (a text in triple quotes may run over several lines; it is a string like the ones in double quotes)
             TOK_KW, synonyms={'BO': '[', 'BC': ']', 'CO': '{', 'CC': '}', 'COMMA': ',', 'COLON': ':', 'ML': 'QSTR',
-                              'AT': '@', 'LT': '<', 'GT': '>'},
+                              'AT': '@', 'LT': '<', 'GT': '>', 'W': 'WORD'},
+            # (the keywords are declared for the token name the tokenizer reports - WORD, the synonym of its group W)
             span_matchers={'ML': r"(?P<END_ML>(.|\n)*?)'''"},
             keywords={('WORD', 'in'): 'IN', ('WORD', 'null'): 'NULL'},
             productions={'E': [('WORD', 'IN', 'LIST'), ('MAP',)],
@@ -808,7 +809,79 @@ def doc_comment_case(ctx, rng):
         ctx.violation("value-differs-from-data", {"got": repr(got)[:300], "expected": repr(want)[:300]}, case)
 
 
-FAMILIES = {"start_symbol_is_a_template": lambda ctx, rng: template_start_case(ctx, rng),
+_ATTR_PARSER = []
+
+
+def attribute_list_case(ctx, rng):
+    """lists without a delimiter whose items are 'name=value' or a bare 'name' (both start with a word: the second
+    alternative is tried where the first one gives up behind the word), values may be such lists again; the same items
+    as the elements of a sequence"""
+    if not _ATTR_PARSER:
+        tok = r"(?P<SPACE>\s+)|(?P<COMMENT>\#.*)|(?P<WORD>[a-z0-9_]+)|(?P<BO>\[)|(?P<BC>\])|(?P<EQ>=)|(?P<SEMI>;)"
+        syn = {'BO': '[', 'BC': ']', 'EQ': '=', 'SEMI': ';'}
+        common = {'ITEM': [('PAIR',), ('WORD',)], 'PAIR': [('WORD', '=', 'VALUE')], 'VALUE': [('WORD',), ('LIST',)],
+                  'LIST': ListProds('[', 'ITEM', None, ']')}
+        _ATTR_PARSER.append(llparser.LLParser(tok, synonyms=syn, productions=dict(common, E=[('LIST',)])))
+        _ATTR_PARSER.append(llparser.LLParser(tok, synonyms=syn, productions=dict(
+            {k: (ListProds('[', 'ITEM', None, ']') if k == 'LIST' else list(v)) for k, v in common.items()},
+            E=[('SEQ', ';')], SEQ=ProdSequence('ITEM'))))
+    ctx.evaluated()
+
+    def gen_list(d):
+        return [gen_item(d) for _ in range(rng.choice([0, 1, 2, 3, 5]))]
+
+    def gen_item(d):
+        if rng.random() < 0.45:
+            return ('=', rng.choice(["a", "b", "k_1"]), gen_list(d + 1) if d < 2 and rng.random() < 0.3 else
+                    rng.choice(["x", "y", "7"]))
+        return rng.choice(["a", "c", "zz", "9"])
+
+    def text_of(v):
+        if isinstance(v, list):
+            return "[" + ws(rng) + "".join(text_of(x) + sep(rng) for x in v) + "]"
+        if isinstance(v, tuple):
+            return v[1] + ws(rng) + "=" + ws(rng) + text_of(v[2])
+        return v
+
+    def want_of(v):
+        if isinstance(v, list):
+            return [want_of(x) for x in v]
+        if isinstance(v, tuple):
+            return [v[1], '=', want_of(v[2])]
+        return v
+
+    def plain(x):
+        if isinstance(x, TElement):
+            x = x.value
+        if isinstance(x, list):
+            return [plain(i) for i in x]
+        return x
+
+    as_seq = rng.random() < 0.4
+    # (the elements of a sequence are not cleaned up - the known finding of this property - so they hold no lists, and
+    # every symbol in them keeps its own node: the nodes with a single child are looked through)
+    data = gen_list(2 if as_seq else 0)
+    text = ("".join(text_of(x) + sep(rng) for x in data) + ";") if as_seq else text_of(data)
+    case = {"options": {"attribute_lists": True}, "text": text}
+    try:
+        got = plain(_ATTR_PARSER[1 if as_seq else 0].parse(text))
+    except Exception as err:
+        ctx.violation("valid-text-rejected", {"type": type(err).__name__, "msg": str(err)[:200]}, case)
+        return
+    ctx.count("attribute_lists_parsed")
+    want = [want_of(data), ';'] if as_seq else want_of(data)
+    if as_seq and isinstance(got, list) and got and isinstance(got[0], list):
+        def unwrapped(x):
+            while isinstance(x, list) and len(x) == 1:
+                x = x[0]
+            return [unwrapped(i) for i in x] if isinstance(x, list) else x
+        got = [[unwrapped(e) for e in got[0]]] + got[1:]
+    if got != want:
+        ctx.violation("value-differs-from-data", {"got": repr(got)[:300], "expected": repr(want)[:300]}, case)
+
+
+FAMILIES = {"attribute_lists": lambda ctx, rng: attribute_list_case(ctx, rng),
+            "start_symbol_is_a_template": lambda ctx, rng: template_start_case(ctx, rng),
             "doc_comments": lambda ctx, rng: doc_comment_case(ctx, rng),
             "command_line": lambda ctx, rng: command_line_case(ctx, rng),
             "keywords_and_quoted_strings": lambda ctx, rng: keyword_case(ctx, rng),
@@ -834,6 +907,8 @@ def run_shard(ctx):
                 command_line_case(ctx, rng)
             for _ in range(6):
                 doc_comment_case(ctx, rng)
+            for _ in range(6):
+                attribute_list_case(ctx, rng)
         o = gen_options(rng)
         try:
             mk_parser(o)
